@@ -500,6 +500,10 @@ class AstInfo:
             True if it should be covered, False otherwise.
             Defaults to True if there is no conditional statement at lineno.
         """
+        if not self._in_cover(lineno):
+            # For example an `except` clause that is itself excluded.
+            return False
+
         for branch_node in nodes_of_class(self.ast, (ast.If, ast.For, ast.While, ast.match_case)):
             start = scope_line_range(branch_node)[0]
             if start == lineno or (
